@@ -675,6 +675,9 @@ func OriginsDeep(v ssa.Value) []DeepOrigin {
 	return out
 }
 
+// CurrentCtx returns a copy of the active call context.
+func CurrentCtx() []*ssa.Call { return append([]*ssa.Call{}, activeCtx...) }
+
 // WithCtx runs f with the given call context active (see activeCtx).
 func WithCtx(ctx []*ssa.Call, f func()) {
 	saved := activeCtx
